@@ -439,7 +439,7 @@ def run(ctx):
         "3-replica groups: the restarted node rejoins the live group (raft re-sends what it lost); its state is compared "
         "with the other replicas after a write barrier and equal applied indexes",
         "after the barrier an unanswered operation of a dead process is assumed not to take effect any more",
-        "mem and pebble engines; values of the ZOps model only (2 string keys, 2 hash fields, 1 list)",
+        "mem and pebble engines; values of the ZOps model only (2 string keys, 2 hash fields, 1 list, 1 HyperLogLog key with 8 fixed elements; PFADD answers are not checked, PFCOUNT is)",
         "wall-clock time-outs (a node that does not come up or never settles) are skipped and counted, never judged",
     ]
     if weak:
